@@ -3362,6 +3362,11 @@ class SSHConnection(SSHPacketHandler, asyncio.Protocol):
         if dest_port == 0:
             dest_port = listen_port
 
+        if not self._transport:
+            # The connection was closed while the listener was being set up
+            listener.close()
+            raise OSError('SSH connection closed')
+
         self._local_listeners[listen_host, listen_port] = listener
 
         return listener
@@ -3408,6 +3413,11 @@ class SSHConnection(SSHPacketHandler, asyncio.Protocol):
         except OSError as exc:
             self.logger.debug1('Failed to create local UNIX listener: %s', exc)
             raise
+
+        if not self._transport:
+            # The connection was closed while the listener was being set up
+            listener.close()
+            raise OSError('SSH connection closed')
 
         self._local_listeners[listen_path] = listener
 
@@ -5443,6 +5453,11 @@ class SSHClientConnection(SSHConnection):
         if listen_port == 0:
             listen_port = listener.get_port()
 
+        if not self._transport:
+            # The connection was closed while the listener was being set up
+            listener.close()
+            raise OSError('SSH connection closed')
+
         self._local_listeners[listen_host, listen_port] = listener
 
         return listener
@@ -5493,6 +5508,11 @@ class SSHClientConnection(SSHConnection):
         except OSError as exc:
             self.logger.debug1('Failed to create local UNIX listener: %s', exc)
             raise
+
+        if not self._transport:
+            # The connection was closed while the listener was being set up
+            listener.close()
+            raise OSError('SSH connection closed')
 
         self._local_listeners[listen_path] = listener
 
@@ -5712,6 +5732,11 @@ class SSHClientConnection(SSHConnection):
 
         if listen_port == 0:
             listen_port = listener.get_port()
+
+        if not self._transport:
+            # The connection was closed while the listener was being set up
+            listener.close()
+            raise OSError('SSH connection closed')
 
         self._local_listeners[listen_host, listen_port] = listener
 
